@@ -61,18 +61,42 @@ def _expected_buffer(tbl, msa_none):
 class MsgFacts:
     """What metar_msg(which) computes, extracted from its exits."""
 
+    @staticmethod
+    def _split(e):
+        from dataclasses import replace
+        alts = _split_alternatives(e.value, e.guard)
+        if len(alts) == 1:
+            return [e]
+        return [replace(e, value=v, guard=g) for g, v in alts if g != T.FALSE]
+
     def __init__(self, ctx, which, rule):
         self.which = which
         self.m, self.ex, self.s = run_msg(ctx, which, rule)
         self.tbl = ('attr', SELF, '_' + which)
-        self.returns = [e for e in self.s.events if e.kind == 'return' and not e.ctx and e.guard != T.FALSE]
+        self.returns = []
+        for e in self.s.events:
+            if e.kind == 'return' and not e.ctx and e.guard != T.FALSE:
+                self.returns.extend(self._split(e))
         self.raises = [e for e in self.s.events if e.kind == 'raise' and e.guard != T.FALSE]
         self.join = None
+        for e in self.returns:
+            pass
         for e in self.returns:
             if _join_parts(e.value):
                 self.join = e
         # atoms
         self.n_term = None
+
+
+def _split_alternatives(v, guard):
+    # a conditional expression / helper with early returns: one exit per alternative, except the
+    # NCD-or-NSC selection by the high-cloud flag, which is kept as one value
+    if tag(v) == 'phi' and not ({g for g, _ in v[1]} <= {FLAG, T.mk_not(FLAG)}):
+        out = []
+        for g, alt in v[1]:
+            out.extend(_split_alternatives(alt, T.mk_and([guard, g])))
+        return out
+    return [(guard, v)]
 
 
 def well_formed_exits(ctx, rule='C01-R1'):
@@ -204,7 +228,7 @@ def decision_table(ctx, rule='C02-R2'):
         def mk_neg_class(base, join_term, sel):
             # A: 0 == n_<which>   /  B via len(msg) == 0
             ln = ('call', ('g', 'builtins.len'), (join_term,), ())
-            if base == ('cmp', 'eq', C(0), ln):
+            if base in (('cmp', 'eq', C(0), ln), ('cmp', 'le', ln, C(0)), ('cmp', 'lt', ln, C(1))):
                 return 'B', False
             if base in (('cmp', 'eq', C(''), join_term), T.mk_cmp('==', join_term, C(''))):
                 return 'B', False
